@@ -107,4 +107,9 @@ Section Reason.
     left. destruct (rewards_run_defender s1 s2 k d Hrun Hall Hd Hdr Hde Hdw) as (d' & Hd' & Hw' & Hf & _).
     exists d'. split; [exact Hd'|]. split; [exact Hw'|]. apply Hf. exists c, a'. split; [apply alookup_In, Ha'|]. split; congruence.
   Qed.
+
+  (* a Benign agent gets no bonus and is never marked rewarded: the reward task leaves its record exactly as it is - so nothing
+     may wait for a Benign agent to BE marked *)
+  Lemma reward_agent_benign b (a : agent) : a_role a = RBenign -> reward_agent cfg b a = a.
+  Proof. intros H. unfold reward_agent. destruct (_ || _); [reflexivity|]. rewrite H. reflexivity. Qed.
 End Reason.
